@@ -2,6 +2,7 @@
 package main
 
 import (
+	"verifharness/dialx"
 	"verifharness/hx"
 	"verifharness/lazyx"
 	"verifharness/poolx"
@@ -19,4 +20,5 @@ func main() {
 	reusex.Drive(w, o, func(s string) string { return "(KReuse " + s + ")" })
 	poolx.DriveBursts(w, o, func(s string) string { return "(KBurst " + s + ")" })
 	ppx.Drive(w, o, func(s string) string { return "(KPool " + s + ")" })
+	dialx.Drive(w, o, func(s string) string { return "(KLive " + s + ")" })
 }
